@@ -6,22 +6,30 @@ import (
 	"github.com/wollac/iota-crypto-demo/pkg/bech32"
 )
 
+// vMkAddr (white box, wb_test.go): the package's own address types filled through their unexported field.  Fallback:
+// the same object obtained through the public parser from the driver's own encoding; last resort, the driver's own
+// implementation of the exported Address interface.
+var vMkAddr func(version int, hash []byte) Address
+
+type vPlainAddr struct {
+	v Version
+	h []byte
+}
+
+func (a vPlainAddr) Version() Version { return a.v }
+func (a vPlainAddr) Bytes() []byte    { return append([]byte{byte(a.v)}, a.h...) }
+func (a vPlainAddr) String() string   { return "plain" }
+
 func mkAddr(version int, hash []byte) Address {
-	switch Version(version) {
-	case Ed25519:
-		var a Ed25519Address
-		copy(a.hash[:], hash)
-		return a
-	case Alias:
-		var a AliasAddress
-		copy(a.hash[:], hash)
-		return a
-	case NFT:
-		var a NFTAddress
-		copy(a.hash[:], hash)
-		return a
+	if vMkAddr != nil {
+		return vMkAddr(version, hash)
 	}
-	panic("bad version")
+	if s, err := bech32.Encode("iota", append([]byte{byte(version)}, hash...)); err == nil {
+		if _, a, err := ParseBech32(s); err == nil && a != nil {
+			return a
+		}
+	}
+	return vPlainAddr{Version(version), append([]byte{}, hash...)}
 }
 
 func parseOut(s string) M {
